@@ -389,6 +389,8 @@ def campaign(ctx, props):
     """Runs graphs x configurations x schedules. `props`: which properties' failures are reported by this check."""
     camp = EngineCampaign(ctx)
     camp.sentinel()
+    import translate_engine
+    translate_engine.check(ctx)      # the engine's atomic blocks compiled from the source and linked to Engine.v's init / next by theorems
     if not camp.usable:
         ctx.notes["engine_campaign"] = "skipped: run_function_on_graph.py lacks statements the tracer keys on (reported as a broken sentinel)"
         return camp
